@@ -2,6 +2,8 @@
 import glob
 import json
 import os
+import re
+import subprocess
 
 import checklib
 
@@ -11,6 +13,26 @@ def decode(p):
     kind = {"R": "rules of one event (flag, prio:fails:addsChild …)", "S": "the same as ECAL sinks (interpreter default: flag on)", "B": "RootMonitor calls (N=new child, A=activate, S=skip, F=finish)",
             "K": "cascade script (workers, roots of parent:prio:triggers:fails)"}.get(f[0], "?")
     return {"kind": kind, "payload": p}
+
+
+GEN = os.path.join(checklib.LEAN, "Ecal", "Gen", "C10.lean")
+
+
+def extract(ctx):
+    """regenerate lean/Ecal/Gen/C10.lean from engine/*.go of the tree under test (go/ast)"""
+    binp = checklib.go_build(ctx)
+    if os.path.exists(GEN):
+        os.remove(GEN)
+    p = subprocess.run([binp, "C10", "-tool", "facts", GEN], env=dict(checklib.GOENV, VERIF_REPO=checklib.REPO),
+                       stdout=subprocess.PIPE, stderr=subprocess.STDOUT, text=True, timeout=120)
+    if p.returncode != 0 or not os.path.exists(GEN):
+        raise checklib.CheckError("C10 fact extraction failed: " + p.stdout[-500:])
+    src = open(GEN).read()
+    unknown = sorted(set(re.findall(r'"(unknown|other)"', src)))
+    ctx.coverage["generated_facts"] = {"file": "lean/Ecal/Gen/C10.lean", "undetermined_values": len(re.findall(r'"(unknown|other)"', src))}
+    if unknown:
+        ctx.notes.append("fact extractor: some facts are undetermined (unknown/other) for this tree; the theorems over the facts only reject "
+                         "definite bad shapes, the correspondence decides")
 
 
 def post(ctx, cases, gores, model):
@@ -23,6 +45,36 @@ def post(ctx, cases, gores, model):
                 payload, tr = l.split("\t", 1)
                 traces[len(traces)] = (payload, tr)
     cov = ctx.coverage
+    # declared deviation: negative monitor priorities are clamped by the queue
+    neg = [i for i in sorted(cases) if model.get(i, ("", {}))[1].get("dev") == "neg"]
+    cov["negative_priority_clamp_changes_order"] = len(neg)
+    if neg:
+        known, _ = checklib.load_known()
+        text = (f"{len(neg)} one-worker cascade cases where clamping a negative monitor priority to 0 in PriorityQueue.Push changes the order "
+                f"in which events are taken (Go = model; the property's 'lowest priority number' would order them differently), e.g. {cases[neg[0]]}")
+        if (ctx.prop, "negative-priority-clamped") in known:
+            checklib.known_finding(ctx, "id=negative-priority-clamped " + text)
+        else:
+            ctx.notes.append("declared deviation (not in known_findings.txt): " + text)
+    # runs with free tie order: the observed run is validated by the model
+    obs = {}
+    for fn in sorted(glob.glob(os.path.join(ctx.work, "c10-validate-*.txt"))):
+        for l in open(fn, errors="replace"):
+            l = l.rstrip("\n")
+            if " ## " in l:
+                obs[len(obs)] = l
+    cov["validated_runs"] = 0
+    if obs:
+        vres = checklib.run_driver(ctx, ctx.prop, obs, args=["validate"], shards=8)
+        vbad = [k for k in sorted(obs) if vres.get(k, ("MISSING", {}))[0] != "ok"]
+        cov["validated_runs"] = len(obs) - len(vbad)
+        vbad.sort(key=lambda k: len(obs[k]))
+        for k in vbad[:3]:
+            payload, observed = obs[k].split(" ## ", 1)
+            rp = checklib.write_replay(ctx, "validate", {"payload": payload, "observed": observed},
+                                       "an admissible run: ascending priorities, nothing of smaller priority left out, stop exactly after the first failure (flag on), errors = failing started rules",
+                                       observed, f"./check {ctx.prop} --replay <this file>", theorem="Ecal.Props.C10.fail_first_prefix", tag="validate")
+            checklib.violation(ctx, rp, f"observed run rejected by the validator: {observed[:120]!r} for {payload[:80]!r}")
     multi = sum(1 for c in cases.values() if c.startswith("K ") and not c.startswith("K 1 "))
     cov["multi_worker_runs"] = multi
     cov["traces_validated_against_impl"] = 0
@@ -48,41 +100,84 @@ def post(ctx, cases, gores, model):
 SPEC = dict(
     lean_modules=["Ecal.Props.C10"],
     shards=12,
-    rule=("R: one event, rules with priorities 0..5 in shuffled declaration order, failing rule at every rank / none / two, both flag "
-          "settings, plus rule sets with equal and negative priorities; S: the same rule sets declared as ECAL sinks (priority attribute, raise, addEvent) "
-          "run by the interpreter with its default setting; R and S also after processor life-cycle histories (Start/Finish cycles, Reset and "
-          "re-declaration as in CLIInterpreter.LoadInitialFile, the flag set before / in between / after); B: every sequence of exactly 6 (quick) / 7 (thorough) RootMonitor "
-          "steps over 3 priorities (activate, skip, finish per priority, root monitor) plus random sequences of up to 90 calls over up to 12 "
-          "priorities incl. negative and rejected calls; K: random cascade scripts (1..3 root monitors, up to 12 events each, priorities "
-          "-3..5, skipped and failing events) on 1 worker (exact start order + HighestPriority sampled in every action) and on 2..8 workers "
-          "(started sets, errors, and the recorded queue.push/queue.pop trace replayed on the model). Non-trivial = at least two rules and a "
-          "failing one / a finish after at least two activations or skips / at least three events."),
+    rule=("Case kinds (quick tier counts in input_distribution; ~97 % of the cases and of distinct_nontrivial are the B enumeration, R+S+V+K+Q "
+          "together are a few thousand): "
+          "R: one event on ONE worker, rules with priorities 0..5 in shuffled declaration order, failing rule at every rank / none / two, both flag "
+          "settings; equal-priority groups with a uniform outcome, negative priorities; 13..40 rules with distinct priorities (beyond sort.Sort's "
+          "insertion-sort range); optionally after a processor life-cycle history (Start/Finish cycles, Reset + re-declaration as in "
+          "CLIInterpreter.LoadInitialFile, the flag set before / in between / after). Compared: priority sequence of the action starts, priorities "
+          "in the error report, number of processed child events. "
+          "V: 0..40 rules with ties of mixed outcome; Go reports the started rule NAMES and the model VALIDATES the run (Ecal.Priority.validRun) "
+          "instead of predicting it. "
+          "S: the R rule sets as ECAL sinks run by the interpreter with its default flag: priority attribute incl. equal / negative / fractional "
+          "values, the three ways a sink fails (raise, runtime error, top-level return), addEvent; also after life-cycle histories. "
+          "B: RootMonitor driven directly: every sequence of exactly 6 (quick) / 7 (thorough) steps over 3 priorities (heap of at most 3 entries: "
+          "exercises the counting and the Skip guard, cannot see heap-order defects); random sequences of up to 90 calls over up to 12 priorities "
+          "incl. negative and rejected calls; heap-stress sequences (8..30 distinct priorities active at once, then 40..160 random finishes and "
+          "activations). HighestPriority() after every call. "
+          "Q: sortutil.PriorityQueue driven directly (Push with 2..40 distinct priorities incl. negative, Pop, Peek, Clear, up to 450 calls): "
+          "returned values AND the slice layout (PriorityQueue.String()) after every call against the heap-slice model HPQ. "
+          "K: cascade scripts (1..3 root monitors, up to 12 events each with 0..4 rules of distinct priorities, monitor priorities -3..5, skipped "
+          "events, failing rules, both flag settings; the events of a rule are added by that rule). 1 worker: exact order of action starts per "
+          "root with HighestPriority() sampled in every action, error report, final report. 2..8 workers: set of started (event, rule) pairs, "
+          "error report, final report, a schedule-independent oracle for HighestPriority() inside every action (<= own priority, is the priority of "
+          "a triggering event of that root), and the recorded queue.push/queue.pop trace replayed on the abstract queue and on HPQ. "
+          "Non-trivial = at least two rules and a failing one / a finish after at least two activations or skips / at least three events / at "
+          "least four queue calls."),
     exhaustive="all RootMonitor step sequences of the stated length over 3 priorities",
     trusted_base=[
         "the rules handed to ProcessEvent's sort/loop are produced by the rule index (C01); the model starts from the triggered, non-suppressed rules",
-        "sortutil.PriorityQueue: the abstract queue ('pop = least (priority, counter)') is proved to be refined by the real container/heap representation in every reachable state (pq_reachable_heap_ordered, real_pop_is_min); that the Lean Heap.* functions transcribe container/heap is tied by the correspondence",
-        "with several workers the dequeue order is observed at the hook points queue.push / queue.pop (hooks/C10.patch), called under TaskQueue.lock",
+        "Go's sort.Sort(RuleSlice) returns a permutation in non-decreasing priority order (IsPrioSort); nothing is assumed about ties; both of its "
+        "code paths (n <= 12 and n > 12) are exercised by the R/V cases",
+        "sortutil.PriorityQueue: the abstract queue ('pop = least (clamped priority, counter)') is proved to be refined by the container/heap "
+        "representation HPQ in every reachable state (pq_reachable_heap_ordered, real_pop_is_min); that HPQ / Heap.push / Heap.pop transcribe "
+        "the Go code is tied by the Q cases (values and slice layout after every call) and by replaying every recorded trace on HPQ; "
+        "Heap.init / Heap.fix / IntHeap.RemoveFirst by the B cases (heap-stress family)",
+        "TaskQueue.Push / Pop are atomic (tq.lock); with several workers the dequeue order is observed at the hook points queue.push / queue.pop "
+        "called under that lock",
+        "HighestPriority with several workers: the theorem is about sequential call sequences; it speaks for concurrent cascades because every "
+        "access to incomplete / priorities is inside one rm.lock section (re-extracted on every run: Gen.C10.bookAccess, theorem "
+        "gen_bookkeeping_under_lock) and each monitor is driven by one goroutine at a time (Activate by the adder before the task is queued, "
+        "Finish by the worker that ran it); this linearisation argument is not a Lean theorem",
+        "go/ast fact extractor go/cmd/harness/c10tool.go (writers of failOnFirstError, lock discipline, the two repaired guards); values it "
+        "cannot classify are 'unknown'/'other' and are left to the correspondence",
+        "the cascade model runs ONE worker on ONE root monitor; runs on several workers are tied through schedule-independent observables "
+        "(started sets, error reports, the HighestPriority oracle) and the dequeue traces",
     ],
-    assumptions=["HighestPriority = -1 means 'none' only for priorities >= 0 (the documented domain); the Option-valued theorem has no such restriction",
-                 "which non-empty root queue a worker serves is random in TaskQueue.Pop and not constrained by the property"],
+    assumptions=[
+        "priority numbers of child monitors are >= 0 (documented domain, '0 is the highest'). Declared deviation for negative numbers: "
+        "PriorityQueue.Push clamps them to 0 while RootMonitor does not, so an event with number -2 is not taken before an earlier event with "
+        "number 0 and HighestPriority reports -2 meanwhile (theorem queue_clamps_negative_priorities, findings/C10-negative-priority-clamped.json). "
+        "Go API only: ECAL code creates child monitors with NewChildMonitor(0) exclusively (interpreter/func_provider.go); negative RULE "
+        "priorities (sink `priority -1`) are ordered correctly. The queue theorems are stated for the clamped number",
+        "HighestPriority = -1 means 'none' only for priorities >= 0; the Option-valued theorem has no such restriction",
+        "which non-empty root queue a worker serves is random in TaskQueue.Pop and not constrained by the property",
+    ],
     decode=decode,
+    extract=extract,
     post=post,
 )
 
 META = dict(
-    technique=("Lean 4 theorems over executable models of ProcessEvent's sort/run loop, the per-root priority queue and the RootMonitor "
-               "bookkeeping including a faithful container/heap (up/down/Init/Fix) and IntHeap.RemoveFirst; differential correspondence "
-               "through the public engine API plus replay of recorded TaskQueue push/pop traces on the model"),
-    level_text=("Proof: for every admissible (non-stable) priority sort the started rules are a prefix of the sorted list, hence ascending; with "
-                "fail-on-first-error exactly the prefix through the first failing rule runs and exactly that rule is reported, without it all run "
-                "and all failures are reported; every pop returns the least (priority, insertion number) and nothing left in a reachable queue "
-                "should have gone first; for every accepted sequence of NewChildMonitor/Activate/Skip/Finish calls the heap root equals the least "
-                "priority of the monitors activated by a triggering event and not finished (heapify and sift-up proved, not assumed); heap.Push keeps "
-                "and heap.Pop uses the heap order, so the real PriorityQueue implements pop-is-least in every reachable state; in the cascade "
-                "model the events added by a rule are started whether or not the rule fails, each event once. The two "
-                "defects repaired by 5e0512e are kept as decide-checked negative theorems about the same algorithms."),
-    level_note=("Trusted: Lean kernel + propext/Classical.choice/Quot.sound; the correspondence harness; the Lean transcription of container/heap "
-                "(up/down/Init/Push/Pop/Fix) is tied to the Go code by the correspondence; scheduling across root monitors is unconstrained."),
+    technique=("Lean 4 theorems over executable models of ProcessEvent's sort/run loop composed with the per-root priority queue (cascade model), of "
+               "sortutil.PriorityQueue on its container/heap slice, and of the RootMonitor bookkeeping incl. IntHeap.RemoveFirst; source facts "
+               "re-extracted with go/ast on every run; differential correspondence through the public engine / interpreter / sortutil API plus "
+               "replay of recorded TaskQueue push/pop traces and validation of observed runs where the order of ties is free"),
+    level_text=("Proof: (a) for every admissible (non-stable) priority sort the started rules are a prefix of the sorted list, hence ascending; ties "
+                "may run in any order. (b) every pop returns the least (clamped priority, insertion number), nothing left in a reachable queue "
+                "should have gone first, and the container/heap representation implements this in every reachable state (Push keeps, Pop uses "
+                "the heap order). (c) for every accepted SEQUENTIAL sequence of NewChildMonitor/Activate/Skip/Finish calls the heap root equals "
+                "the least priority of the monitors activated by a triggering event and not finished (heapify, sift-up, RemoveFirst+Init "
+                "proved); concurrent use is covered by the extracted lock discipline, not by an interleaving model. (d) with fail-on-first-error "
+                "exactly the prefix through the first failing rule runs and exactly that rule is reported; composed with the queue in the "
+                "one-worker cascade model: the events of every started rule (also of the failing one and of those before it) are processed, "
+                "rules not started add nothing, no event runs twice. (e) without the flag all rules run and all failures are reported; the flag "
+                "is only written by its setter (extracted) and survives Start/Finish/Reset/AddRule. The defects repaired by 5e0512e and the "
+                "clamping of negative priorities are kept as decide-checked negative theorems."),
+    level_note=("Trusted: Lean kernel + propext/Classical.choice/Quot.sound; the correspondence harness and the go/ast extractor; sort.Sort's "
+                "contract; the transcription of container/heap, PriorityQueue and IntHeap into Lean (tied by the Q and B cases incl. slice "
+                "layout); rm.lock / tq.lock linearisation for several workers; scheduling across root monitors is unconstrained; priorities "
+                "below 0 deviate (declared)."),
 )
 
 
@@ -92,6 +187,21 @@ def run(ctx):
 
 def replay(ctx, path):
     obj = json.load(open(path))
+    if obj.get("kind") == "validate":
+        lock = checklib._lean_lock()
+        try:
+            checklib.sh(["lake", "build", "driver"], cwd=checklib.LEAN)
+        finally:
+            lock.close()
+        res = checklib.run_driver(ctx, ctx.prop, {0: obj["case"]["payload"] + " ## " + obj["case"]["observed"]}, args=["validate"], shards=1)
+        verdict = res.get(0, ("MISSING", {}))[0]
+        print("case     :", obj["case"]["payload"])
+        print("observed :", obj["case"]["observed"])
+        print("model    :", verdict)
+        if verdict != "ok":
+            print(f"VIOLATION property={ctx.prop} replay={os.path.relpath(path, checklib.VERIF)}")
+            return 1
+        return 0
     if obj.get("kind") != "trace":
         return checklib.replay(ctx, SPEC, path)
     lock = checklib._lean_lock()
